@@ -42,6 +42,14 @@ class ScriptSock(socket.socket):
         return len(data)
 
 
+class ScriptSockTLS(ScriptSock):
+    """a socket that ALSO has a read() of its own, as ssl.SSLSocket does (returns at most the rest of the current record):
+    it is a socket all the same and must be wrapped like one"""
+
+    def read(self, n=1024, buffer=None):
+        return self.recv(n)
+
+
 class RecSock(socket.socket):
     """records what a real socket's recv() returns"""
 
@@ -173,7 +181,7 @@ def obs_reader(case):
                 except OSError:
                     pass
     else:
-        sock = ScriptSock(segments(S, case["cuts"]), case["end"], events)
+        sock = (ScriptSockTLS if case.get("tls") else ScriptSock)(segments(S, case["cuts"]), case["end"], events)
         try:
             sitems, spd, send = _reader_items(sock, kw)
         finally:
